@@ -1,0 +1,35 @@
+// +build verif
+
+package proc
+
+import (
+	"time"
+
+	"github.com/samaritan-proxy/samaritan/host"
+	"github.com/samaritan-proxy/samaritan/pb/config/hc"
+	"github.com/samaritan-proxy/samaritan/pb/config/service"
+	hcpkg "github.com/samaritan-proxy/samaritan/proc/internal/hc"
+	"github.com/samaritan-proxy/samaritan/proc/internal/lb"
+)
+
+// Re-exports of internal packages for verification builds only.
+
+// VerifBalancer is the load balancer interface of internal/lb.
+type VerifBalancer interface {
+	Name() string
+	PickHost(hosts []*host.Host) *host.Host
+}
+
+func VerifNewBalancer(p service.LoadBalancePolicy) VerifBalancer { return lb.New(p) }
+
+func VerifSetLBRandInt(f func() int) { lb.VerifSetRandInt(f) }
+
+// VerifMonitor is the health monitor of internal/hc.
+type VerifMonitor interface {
+	Start()
+	Stop()
+}
+
+func VerifNewMonitor(config *hc.HealthCheck, set *host.Set, check func(addr string, timeout time.Duration) error) VerifMonitor {
+	return hcpkg.VerifNewMonitor(config, set, check)
+}
